@@ -11,6 +11,7 @@
 EXTENDS Field, Json, FiniteSets
 CONSTANTS MaxLen, Alphabet, Ws, Aligns, Wide, TWs, Kinds,
           BarWs,     \* widths W of [{bar:<al><W>}] fields (1- and 2-column progress clusters; printed once, with the empty content); {} = none
+          NarrowTWs, \* terminal widths narrower than some field widths: the field keeps its width W whatever the terminal width is; {} = none
           Wide2      \* TRUE: also {prefix:P} {wide_msg:<al>}suf - the text in front of the wide element comes from another field, which may overflow its width
 VARIABLES s, done
 vars == <<s, done>>
@@ -22,6 +23,8 @@ Sufs == {<<>>, <<121>>, <<1002, 124>>}                   \* "", "y", CJK glyph +
 X0 == [cw |-> 0, chars |-> <<>>, pw |-> 0, pm |-> <<>>]
 MsgOps(c) == { [op |-> "field", kind |-> kd, m |-> c, w |-> W, al |-> a, tr |-> t, pre |-> <<91>>, suf |-> <<93>>, tw |-> IF W < 100 THEN 200 ELSE 65535] @@ X0 :
                  kd \in Kinds, W \in Ws, a \in Aligns, t \in BOOLEAN }
+             \cup { [op |-> "field", kind |-> kd, m |-> c, w |-> W, al |-> a, tr |-> t, pre |-> <<91>>, suf |-> <<93>>, tw |-> tw] @@ X0 :
+                 kd \in Kinds, W \in Ws, a \in Aligns, t \in BOOLEAN, tw \in NarrowTWs }
 WideOps(c) == IF ~Wide THEN {} ELSE
               { [op |-> "field", kind |-> "wide", m |-> c, w |-> WideWidth(tw, p, q), al |-> a, tr |-> TRUE, pre |-> p, suf |-> q, tw |-> tw] @@ X0 :
                  tw \in TWs, a \in Aligns, p \in Pres, q \in Sufs }
@@ -36,7 +39,12 @@ Wide2Ops(c) == IF ~Wide2 THEN {} ELSE
                { [op |-> "field", kind |-> "wide2", m |-> c, w |-> WideWidth(tw, RefField(pf[2], pf[1], "<", FALSE) \o <<32>>, q), al |-> a, tr |-> TRUE,
                   pre |-> RefField(pf[2], pf[1], "<", FALSE) \o <<32>>, suf |-> q, tw |-> tw, cw |-> 0, chars |-> <<>>, pw |-> pf[1], pm |-> pf[2]] :
                  tw \in TWs, a \in Aligns, pf \in PreFields, q \in {<<>>, <<124>>} }
-OpsOf(c) == MsgOps(c) \cup WideOps(c) \cup BarOps(c) \cup Wide2Ops(c)
+(* two lines with a wide element each, of different alignment: the second line is judged (pw carries the first line's alignment: 1 = "<", 2 = "^", 3 = ">") *)
+AlCode(a) == IF a = "^" THEN 2 ELSE IF a = ">" THEN 3 ELSE 1
+WideLineOps(c) == IF ~Wide2 THEN {} ELSE
+               { [op |-> "field", kind |-> "wide2l", m |-> c, w |-> WideWidth(tw, <<91>>, <<93>>), al |-> a, tr |-> TRUE, pre |-> <<91>>, suf |-> <<93>>, tw |-> tw,
+                  cw |-> 0, chars |-> <<>>, pw |-> AlCode(a1), pm |-> <<>>] : tw \in TWs, <<a, a1>> \in {p \in Aligns \X Aligns : p[1] # p[2]} }
+OpsOf(c) == MsgOps(c) \cup WideOps(c) \cup BarOps(c) \cup Wide2Ops(c) \cup WideLineOps(c)
 
 RECURSIVE SetToSeq(_)
 SetToSeq(S) == IF S = {} THEN <<>> ELSE LET x == CHOOSE x \in S : TRUE IN <<x>> \o SetToSeq(S \ {x})
@@ -55,6 +63,6 @@ Spec == Init /\ [][Next]_vars
 RefOK == \A o \in OpsOf(s) :
             LET F == RefField(o.m, o.w, o.al, o.tr) IN
             /\ FieldOK(F, o.m, o.w, o.al, o.tr)
-            /\ LineOK(o.pre \o F \o o.suf, o.pre, o.suf, o.m, o.w, o.al, o.tr, o.kind \in {"wide", "wide2"})
+            /\ LineOK(o.pre \o F \o o.suf, o.pre, o.suf, o.m, o.w, o.al, o.tr, o.kind \in {"wide", "wide2", "wide2l"})
 TypeOK == Len(s) <= MaxLen /\ RefOK
 =============================================================================
